@@ -129,6 +129,23 @@ func faultFMP4(r *rng.R, s *StreamR, isRendition bool) string {
 		}
 		return &p.Tracks[r.Intn(len(p.Tracks))]
 	}
+	if !isRendition && r.Bool(1, 16) {
+		// many parts in one segment (valid content): one track, n parts of one sample each.
+		// <= 10 or >= 12 entries for the single track: the outcome does not depend on the schedule
+		n := []int{9, 10, 12, 13, 16, 40}[r.Intn(6)]
+		t := s.Tracks[0]
+		s.Tracks = []TrackR{t}
+		d := t.TimeScale / 1000
+		if d == 0 {
+			d = 1
+		}
+		var seg SegR
+		for k := 0; k < n; k++ {
+			seg.Parts = append(seg.Parts, PartR{Tracks: []PartTrackR{{ID: t.ID, BaseTime: uint64(k) * uint64(d), Samples: []SampleR{{Dur: d}}}}})
+		}
+		s.Segments = []SegR{seg}
+		return fmt.Sprintf("many-parts:%d", n)
+	}
 	switch r.Pick(14, 8, 6, 4, 4, 6, 10, 12, 8, 5, 3, 3) {
 	case 0: // a codec mediacommon parses and gohlslib has no type for
 		c := fmp4Unsupported[r.Intn(len(fmp4Unsupported))]
@@ -408,7 +425,7 @@ func genRecipe(r *rng.R) *Recipe {
 	fmp4Lead := r.Bool(13, 20)
 	// one time origin for all streams of a recipe (in 90 kHz ticks): often 0, sometimes an
 	// offset; MPEG-TS sometimes just below the 33-bit wrap
-	start := uint64(r.Pick(3, 1)) * uint64(r.Range(0, 900000))
+	start := uint64(r.Pick(3, 1)) * uint64(r.Range(0, 9000)) // <= 0.1 s: a mismatch between streams must not become a long sleep
 	tsStart := start
 	if r.Bool(1, 4) {
 		tsStart = 0x1FFFFFFFF - uint64(r.Intn(3000))
@@ -538,6 +555,15 @@ func boundaryRecipes() []*Recipe {
 	// every supported codec alone
 	for _, c := range []string{"h264", "h265", "av1", "vp9", "mpeg4audio", "opus"} {
 		out = append(out, one([]TrackR{{ID: 1, TimeScale: timescaleOf(c), Codec: c}}, []PartTrackR{{ID: 1, Samples: []SampleR{{Dur: 100}, {Dur: 100}}}}))
+	}
+	// many parts in one segment of a valid single-track stream: 10, 11 play; 12, 13 wedge the client
+	for _, n := range []int{10, 11, 12, 13} {
+		var parts []PartR
+		for k := 0; k < n; k++ {
+			parts = append(parts, PartR{Tracks: []PartTrackR{{ID: 1, BaseTime: uint64(k) * 90, Samples: []SampleR{{Dur: 90}}}}})
+		}
+		out = append(out, &Recipe{Kind: "content", CloseAt: -1, Faults: []string{fmt.Sprintf("many-parts:%d", n)},
+			Streams: []StreamR{{Container: "fmp4", Tracks: []TrackR{{ID: 1, TimeScale: 90000, Codec: "h264"}}, Segments: []SegR{{Parts: parts}}}}})
 	}
 	// time scale 0: leading track; non-leading track; with a date
 	r = one([]TrackR{{ID: 1, TimeScale: 0, Codec: "h264"}}, []PartTrackR{{ID: 1, Samples: []SampleR{{Dur: 900}}}})
